@@ -31,7 +31,7 @@ NOTE_FORMS = {
 }
 POSITIONS = ["first", "middle", "last", "only-in-block", "under-h1", "under-h2"]
 MENTIONS = ["none", "earlier-note", "later-note", "earlier-zid-link"]
-OWN_TAGS = ["none", "same-as-inherited"]
+OWN_TAGS = ["none", "same-as-inherited", "extends-inherited"]
 DESTS = ["missing-no-template", "missing-template", "header-only", "header-blank", "block-nl", "block-no-nl",
          "block-two-blank", "block-then-section", "ends-with-section-header", "mentions-zid"]
 MARKERS = [None, "x", "~"]
@@ -41,6 +41,9 @@ def build_source(form, pos, mention, own):
     note = list(NOTE_FORMS[form])
     if own == "same-as-inherited":
         note[0] += " #inh +proj"
+    elif own == "extends-inherited":
+        # longer tags that merely start with the inherited names
+        note[0] += " #inh2 +proj_x"
     a = "- 240101#S1 neighbour one"
     b = "- 240102#S2 neighbour two"
     if mention == "earlier-note":
@@ -276,7 +279,7 @@ def _cases(ctx):
                 for mention in MENTIONS:
                     dkind = DESTS[k % len(DESTS)]
                     marker = MARKERS[k % 3]
-                    own = OWN_TAGS[k % 2]
+                    own = OWN_TAGS[k % 3]
                     cases.append([form, pos, mention, own, dkind, marker])
                     k += 1
         for dkind in DESTS:
@@ -285,7 +288,7 @@ def _cases(ctx):
                     cases.append([form, "middle", "none", "none", dkind, marker])
         for pos in POSITIONS:
             for dkind in DESTS:
-                cases.append(["multi", pos, "none", "same-as-inherited", dkind, None])
+                cases.append(["multi", pos, "none", OWN_TAGS[1 + (len(cases) % 2)], dkind, None])
     else:
         for form, pos, mention, own, dkind, marker in it.product(NOTE_FORMS, POSITIONS, MENTIONS, OWN_TAGS, DESTS, MARKERS):
             cases.append([form, pos, mention, own, dkind, marker])
@@ -314,7 +317,8 @@ def run(ctx: F.Ctx):
             "continuation, plain note) x 6 positions (first/middle/last of a block, alone in a "
             "block, under an H1 carrying a tag and a property, under H1>H2 carrying tags and an "
             "inline property whose value has a space) x ZID mentioned {nowhere, in an earlier note, "
-            "in a later note, in an earlier [zid] link} x own tags {none, same as inherited} x 10 "
+            "in a later note, in an earlier [zid] link} x own tags {none, same as inherited, longer "
+            "tags that start with the inherited names} x 10 "
             "destinations (missing without / with a matching template, header only, header + blank, "
             "block ending in newline / without newline / with two blank lines, block then section, "
             "last line a section header, a note mentioning the ZID) x marker {none, x, ~}; quick "
